@@ -79,7 +79,9 @@ def _quiet_owner(group, evs, ev):
             consumed |= {x["id"] for x in _resp_elems(e["m"])}
     for h, f in first.items():
         if h not in done and ops[h][0] in ("call", "sub") and f in consumed:
-            return "C03", "response-consumed-call-not-completed"
+            # the call does not complete with the response bearing its id (C03), and its future stays pending although the server
+            # has answered (C09: no future stays pending, for any bytes the server may send)
+            return ("C03", "C09"), "response-consumed-call-not-completed"
     if ev == "Sizes":
         return "C18", "tables-differ"          # the client is quiescent (the Quiet before was accepted) but its tables hold something else
     return "C09", "client-not-quiescent"
@@ -227,7 +229,7 @@ def run_client(pid, tier, rep, design_cfgs, asis, groups, nscen):
                 nontrivial.add("".join(sc[1:]))
         if scs:
             rep.cov["samples"].append({"group": g, "trace": [json.loads(x) for x in scs[min(3, len(scs) - 1)]][:60]})
-    for (own, key), n in sorted(foreign_keys.items()):
+    for (own, key), n in sorted(foreign_keys.items(), key=lambda kv: (str(kv[0][0]), kv[0][1])):
         vlib.log("  note: %d scenarios rejected for a reason owned by %s (%s) - reported by that property's check" % (n, own, key))
     rep.cov["traces_validated_against_impl"] += total
     rep.cov["evaluations"] += total
